@@ -138,8 +138,41 @@ try:
             if got != want:
                 w = dict(case=f"single job {tname}{args}", local=repr(want), through_protocol=repr(got))
                 break
+    if w is None:
+        # job reuniting: in-flight remote jobs are paired by evaluation hash -- single jobs by the hash in their name, array children by line
+        # <their own array index> of the array's eval-hash file, whatever subset of the children is still in flight and in whatever order
+        from unittest.mock import Mock
+        import itertools
+        from redun.config import Config
+        from redun.executors.aws_batch import AWSBatchExecutor, get_batch_job_name
+        from redun.executors.scratch import get_array_scratch_file, SCRATCH_HASHES
+        gscratch = os.path.join(root, "gscratch")
+        hashes = [("reunite%d" % i).encode().hex() for i in range(4)]
+        array_hash = "a77a" * 10
+        File(get_array_scratch_file(gscratch, array_hash, SCRATCH_HASHES)).write("\n".join(hashes))
+        conf = Config({"batch": {"image": "img", "queue": "q", "s3_scratch": gscratch, "aws_region": "us-west-2", "code_package": False}})
+        single = "51" * 20
+        for r in range(0, 5):
+            for subset in itertools.combinations(range(4), r):
+                for order in (list(subset), list(reversed(subset))):
+                    n += 1
+                    ex = AWSBatchExecutor("batch", Mock(), conf["batch"])
+                    prefix = ex.job_name_prefix if hasattr(ex, "job_name_prefix") else "redun-job"
+                    ex.get_jobs = Mock(return_value=[{"jobId": "ARR", "jobName": get_batch_job_name(prefix, array_hash, array=True)},
+                                                     {"jobId": "SINGLE", "jobName": get_batch_job_name(prefix, single)}])
+                    ex.get_array_child_jobs = Mock(return_value=[{"jobId": f"ARR:{i}", "arrayProperties": {"index": i}} for i in order])
+                    ex.gather_inflight_jobs()
+                    want = {hashes[i]: f"ARR:{i}" for i in subset}
+                    want[single] = "SINGLE"
+                    if dict(ex.preexisting_batch_jobs) != want:
+                        w = dict(case="gather_inflight_jobs", in_flight_children=order, paired={k[:12]: v for k, v in ex.preexisting_batch_jobs.items()}, expected={k[:12]: v for k, v in want.items()})
+                        break
+                if w:
+                    break
+            if w:
+                break
 finally:
     os.chdir(cwd)
     shutil.rmtree(root, ignore_errors=True)
 finish(w is not None, witness=w, evaluations=n, samples=samples,
-       bound="7 environments for the index lookup; 2 tasks (one raising for odd inputs) x array sizes 1..4 x 4 index variables, elements run in reverse order; 3 single jobs")
+       bound="7 environments for the index lookup; 2 tasks (one raising for odd inputs) x array sizes 1..4 x 4 index variables, elements run in reverse order; 3 single jobs; job reuniting for every subset of 4 array children in two orders plus a single job")
